@@ -31,7 +31,7 @@ theorem step_shape (st st' : State) (s : Stmt) (hi : Inv st) (h : step st s = .o
     obtain ⟨_, k2, _, _, _, k6⟩ := changeSeg_ok st st' a hi.1 h
     exact ⟨trivial, isSome_of_pos k6, k2⟩
   | align n =>
-    unfold step at h
+    rw [step_align] at h
     cases hact : st.active with
     | none => rw [hact] at h; cases h
     | some s =>
